@@ -468,6 +468,13 @@ func runC08(tier string, seed uint64) int {
 	for i := 0; i < nGen; i++ {
 		r := sub(seed, "C08", "gen", i)
 		f := drawFeatures(r)
+		if i%10 == 3 {
+			// one world in ten is ingress-heavy whatever was drawn: few label values, so that one service fronts several workloads
+			f.Ingress, f.IngressHeavy, f.Broad = true, true, true
+			if f.NWorkloads < 4 {
+				f.NWorkloads = 4
+			}
+		}
 		w := genWorld(r, f)
 		if i%5 == 4 {
 			// eval world: bare pods, every namespace has an object, several admin policies
